@@ -285,9 +285,9 @@ func init() {
 
 func checkC20(c *Ctx) {
 	r := c.R
-	r.Min("C20.validate", 4)
+	r.Min("C20.validate", 5)
 	r.Min("C20.counted-iff-valid", 3)
-	r.Min("C20.cursor", 2)
+	r.Min("C20.cursor", 4)
 	cp, err := c.Other("minter-connector", "./...")
 	if err != nil {
 		r.InfraErr = "minter-connector: " + err.Error()
@@ -374,7 +374,35 @@ func checkC20(c *Ctx) {
 				okB = false
 			}
 		}
+		// the recipient that is checked is the recipient that was received: no assignment to cmd.Recipient can
+		// reach a recipient check (a value normalised first always passes)
+		okRaw := true
+		var recStores []*ssa.Store
+		var recChecks []ssa.Instruction
+		ana.Instrs(vf, func(in ssa.Instruction) {
+			if st, ok := in.(*ssa.Store); ok {
+				if fa, ok := st.Addr.(*ssa.FieldAddr); ok {
+					if sty := structOf(fa.X.Type()); sty != nil && sty.Field(fa.Field).Name() == "Recipient" {
+						recStores = append(recStores, st)
+					}
+				}
+			}
+			if call, ok := in.(*ssa.Call); ok {
+				d, _ := ana.Describe(&call.Call)
+				if (d.Name == "IsHexAddress" || d.Name == "AccAddressFromBech32") && len(call.Call.Args) > 0 && cp.Leaves(call.Call.Args[0], ana.PVOpt{}).HasField("Command.Recipient") {
+					recChecks = append(recChecks, call)
+				}
+			}
+		})
+		for _, st := range recStores {
+			for _, ck := range recChecks {
+				if ana.ReachesWithout(st, ck, nil) {
+					okRaw = false
+				}
+			}
+		}
 		where := cp.Pos(vf.Pos())
+		r.Check(okRaw && len(recChecks) > 0, "C20.validate", "recipient-as-received", where, "the recipient is checked before it is rewritten", "the recipient is rewritten (normalised) before it is checked: the check then passes for every input, and a deposit with a malformed recipient becomes a claim")
 		r.Check(okR, "C20.validate", "recipient", where, "success only after the recipient check of a known type", "a command can validate without the recipient check of a known type")
 		r.Check(okP, "C20.validate", "fee-parsed", where, "success only after the fee parsed as an integer", "a command can validate although its fee did not parse as an integer")
 		r.Check(okN, "C20.validate", "fee-non-negative", where, "success only for fee >= 0", "a command with a negative fee validates (\"-5\" parses, and amount-1% <= fee is false): the hub then builds a transfer with a negative fee")
@@ -431,6 +459,102 @@ func checkC20(c *Ctx) {
 		})
 		r.Check(okV && bad == "", "C20.counted-iff-valid", "valid-only:"+fname(f), cp.Pos(f.Pos()), "a send is counted only under ValidateAndComplete == nil", "a send to the multisig is counted although its command did not validate (at "+bad+")")
 		c.checkCursor(cp, f)
+	}
+	// a failed block request is retried for the same window: on the error path of the Blocks(...) call the window
+	// counter is decremented unconditionally before the loop's increment
+	for _, f := range scanners {
+		ana.Instrs(f, func(in ssa.Instruction) {
+			call, ok := in.(*ssa.Call)
+			if !ok || in.Parent() != f {
+				return
+			}
+			d, _ := ana.Describe(&call.Call)
+			if d.Name != "Blocks" || !call.Call.IsInvoke() && d.Recv == "" {
+				return
+			}
+			// the window counter: the phi the request's arguments derive from
+			var ctr *ssa.Phi
+			for _, a := range call.Call.Args {
+				var find func(v ssa.Value, depth int)
+				find = func(v ssa.Value, depth int) {
+					if depth > 6 || ctr != nil {
+						return
+					}
+					switch x := v.(type) {
+					case *ssa.Phi:
+						for _, e := range x.Edges {
+							if k, ok := e.(*ssa.Const); ok && k.Value != nil && k.Value.ExactString() == "0" {
+								ctr = x
+							}
+						}
+						if ctr == nil {
+							for _, e := range x.Edges {
+								find(e, depth+1)
+							}
+						}
+					case *ssa.BinOp:
+						find(x.X, depth+1)
+						find(x.Y, depth+1)
+					case *ssa.Convert:
+						find(x.X, depth+1)
+					}
+				}
+				find(a, 0)
+			}
+			if ctr == nil {
+				r.Undecided("C20.cursor", "retry:"+fname(f), cp.InstrPos(call), "window counter of the block request not found")
+				return
+			}
+			// error branch of the request
+			var errBlock *ssa.BasicBlock
+			for _, ref := range *call.Referrers() {
+				ex, ok := ref.(*ssa.Extract)
+				if !ok || ex.Index != 1 {
+					continue
+				}
+				for _, r2 := range *ex.Referrers() {
+					if bo, ok := r2.(*ssa.BinOp); ok && bo.Op == token.NEQ && ana.IsNilConst(bo.Y) {
+						for _, r3 := range *bo.Referrers() {
+							if iff, ok := r3.(*ssa.If); ok {
+								errBlock = iff.Block().Succs[0]
+							}
+						}
+					}
+				}
+			}
+			if errBlock == nil {
+				r.Undecided("C20.cursor", "retry:"+fname(f), cp.InstrPos(call), "error branch of the block request not found")
+				return
+			}
+			// decrements of the counter
+			dec := map[*ssa.BasicBlock]bool{}
+			ana.Instrs(f, func(i2 ssa.Instruction) {
+				if bo, ok := i2.(*ssa.BinOp); ok && bo.Op == token.SUB && isConstVal(bo.Y, "1") {
+					src := bo.X
+					if src == ssa.Value(ctr) {
+						dec[bo.Block()] = true
+					}
+				}
+			})
+			// every path from the error branch back to the loop header passes a decrement
+			okRetry := len(dec) > 0
+			seen := map[*ssa.BasicBlock]bool{}
+			stack := []*ssa.BasicBlock{errBlock}
+			for len(stack) > 0 {
+				b := stack[len(stack)-1]
+				stack = stack[:len(stack)-1]
+				if seen[b] || dec[b] {
+					continue
+				}
+				seen[b] = true
+				if b == ctr.Block() {
+					okRetry = false
+					continue
+				}
+				stack = append(stack, b.Succs...)
+			}
+			r.Check(okRetry, "C20.cursor", "retry:"+fname(f), cp.InstrPos(call), "a failed block request is repeated for the same window", "after a failed block request the scan can move on to the next window (the window counter is not decremented on every error path): events in the skipped blocks are never counted, and every later event gets a nonce that is too low")
+		})
 	}
 	if len(summaries) == 2 {
 		r.Check(summaries[0] == summaries[1], "C20.counted-iff-valid", "same-kinds", "-", "both scanners recognise the same event kinds with the same predicates and counters: "+summaries[0],
